@@ -492,7 +492,7 @@ theorem bodiesOK_of_back {V : Type} (d : Doc2 V) (h : docInputsBack d = true) : 
         | none => simp [hs] at hq
         | some s => simp [bodyParamOK, hs]
       · simp only [formOKBack, Bool.and_eq_true, beq_iff_eq] at hq
-        simp [bodyParamOK, hq.1.1.1.1]
+        simp [bodyParamOK, hq.1.1.1]
   simp only [bodiesOK, Bool.and_eq_true]
   constructor
   · apply List.all_eq_true.mpr
